@@ -36,6 +36,9 @@ pub struct Case {
     pub cut: u16,
     /// also check a snapshot written in format version 1
     pub v1: bool,
+    /// both instances run with set_remove_pseudo_root(): umount evicts pseudo directories
+    #[serde(default)]
+    pub evict: bool,
 }
 
 struct Mnt {
@@ -94,7 +97,7 @@ fn mask_times(op: &str, body: &mut Vec<u8>) {
 
 impl Dw {
     fn new(cs: &Case) -> Dw {
-        Dw { w: VfsWorld::new(opts_of(cs)), mounts: vec![], at: BTreeMap::new() }
+        Dw { w: VfsWorld::new_with(opts_of(cs), cs.evict), mounts: vec![], at: BTreeMap::new() }
     }
 
     fn req(&self, r: &crate::reqgen::Req) -> Value {
@@ -223,7 +226,7 @@ impl Dw {
 
     /// Build the restored twin from a snapshot.
     fn restored(&self, cs: &Case, bytes: &mut Vec<u8>) -> Result<Dw, String> {
-        let w = VfsWorld::new(opts_of(cs));
+        let w = VfsWorld::new_with(opts_of(cs), cs.evict);
         w.vfs.restore_from_bytes(bytes).map_err(|e| format!("restore_from_bytes: {:?}", e))?;
         let mut mounts = vec![];
         for m in &self.mounts {
@@ -364,8 +367,8 @@ fn strategy() -> BoxedStrategy<Case> {
         2 => prop_oneof![Just(0x7fff_ffffu64), Just(0x3_ffff_ffff), any::<u64>().prop_map(|v| v | 1)].prop_map(Op::Init),
         1 => Just(Op::Destroy),
     ];
-    (any::<bool>(), any::<bool>(), mapopt, proptest::collection::vec(tree_spec(), 1..3), proptest::collection::vec(op, 0..14), any::<u16>(), any::<bool>())
-        .prop_map(|(no_open, no_opendir, global, backends, ops, cut, v1)| Case { no_open, no_opendir, global, backends, ops, cut, v1 })
+    (any::<bool>(), any::<bool>(), mapopt, proptest::collection::vec(tree_spec(), 1..3), proptest::collection::vec(op, 0..14), any::<u16>(), any::<bool>(), prop::bool::weighted(0.4))
+        .prop_map(|(no_open, no_opendir, global, backends, ops, cut, v1, evict)| Case { no_open, no_opendir, global, backends, ops, cut, v1, evict })
         .boxed()
 }
 
@@ -377,7 +380,7 @@ impl Prop for C19 {
     }
     fn meta(&self) -> Meta {
         Meta {
-            rule: "histories (0..14 ops: mount/over-mount/umount incl. bursts past 255, walks, requests, INIT with non-empty capability words, DESTROY; global and per-mount id mappings) cut at a generated prefix; at the cut the VFS is saved, a fresh VFS is restored and the live backends re-attached at their recorded indices; both then receive an identical probe script (walks of all pseudo paths, getattr/readdir/readdirplus/open on every inode number issued before the save, id-mapped requests, a second INIT) followed by the remaining suffix of the history and the probe script again; replies (pseudo timestamps masked) and backend call logs must be identical, mounts must obtain identical indices; also with snapshots written in format version 1 (when no per-mount mapping exists); non-trivial = prefix with >= 2 live mounts, or an unmounted/over-mounted one, or a per-mount mapping; distinct = distinct serialized case (history, cut)",
+            rule: "histories (0..14 ops: mount/over-mount/umount incl. bursts past 255, walks, requests, INIT with non-empty capability words, DESTROY; global and per-mount id mappings; 40% of cases with set_remove_pseudo_root so that umount evicts pseudo directories) cut at a generated prefix; at the cut the VFS is saved, a fresh VFS is restored and the live backends re-attached at their recorded indices; both then receive an identical probe script (walks of all pseudo paths, getattr/readdir/readdirplus/open on every inode number issued before the save, id-mapped requests, a second INIT) followed by the remaining suffix of the history and the probe script again; replies (pseudo timestamps masked) and backend call logs must be identical, mounts must obtain identical indices; also with snapshots written in format version 1 (when no per-mount mapping exists); non-trivial = prefix with >= 2 live mounts, or an unmounted/over-mounted one, or a per-mount mapping; distinct = distinct serialized case (history, cut)",
             assumptions: vec![
                 "an INIT whose capability word is empty is not generated (the crate persists 'initialized' as 'in_opts non-empty')".into(),
                 "version-1 snapshots are produced with the cfg-guarded hook Vfs::verif_save_to_bytes_version(1)".into(),
